@@ -366,7 +366,17 @@ func (h *hist) mutate(o genOpts) string {
 		return fmt.Sprintf("gslb weights %v", subNames(c))
 	case 4: // add a sub-cluster
 		if len(normal) < o.maxSubs+1 {
-			ns := &mSub{Name: fmt.Sprintf("subN%d.%s", h.t.ver, c.Name), Weight: tp.Range(0, 10, "mut.nsw")}
+			// names that sort before, between and after the existing ones
+			prefix := []string{"subN", "aa", "zz", "Sub"}[tp.Draw(4, "mut.nsname")]
+			if c.sub("GSLB_BLACKHOLE") == nil && tp.Chance(1, 4, "mut.addbh") {
+				c.Subs = append(c.Subs, &mSub{Name: "GSLB_BLACKHOLE", Weight: tp.Draw(3, "mut.bhw")})
+				return "add blackhole"
+			}
+			name := fmt.Sprintf("%s%d.%s", prefix, h.t.ver, c.Name)
+			for k := 0; c.sub(name) != nil; k++ {
+				name = fmt.Sprintf("%s%d-%d.%s", prefix, h.t.ver, k, c.Name)
+			}
+			ns := &mSub{Name: name, Weight: tp.Range(0, 10, "mut.nsw")}
 			nb := tp.Range(1, 3, "mut.nsb")
 			for i := 0; i < nb; i++ {
 				b := genBackend(tp, o, 8, len(c.Subs), i)
@@ -378,16 +388,22 @@ func (h *hist) mutate(o genOpts) string {
 			c.Subs = append(c.Subs, ns)
 			return "add sub-cluster " + ns.Name
 		}
-	case 5: // remove a sub-cluster (keep positive total)
-		if len(normal) > 1 {
-			victim := normal[tp.Draw(len(normal), "mut.rmsub")]
+	case 5: // remove a sub-cluster, possibly the blackhole (keep positive total)
+		if len(c.Subs) > 1 {
+			victim := c.Subs[tp.Draw(len(c.Subs), "mut.rmsub")]
 			tot := 0
 			for _, x := range c.Subs {
 				if x != victim && x.Weight > 0 {
 					tot += x.Weight
 				}
 			}
-			if tot > 0 {
+			nleft := 0
+			for _, x := range c.Subs {
+				if x != victim && x.Name != "GSLB_BLACKHOLE" {
+					nleft++
+				}
+			}
+			if tot > 0 && nleft > 0 {
 				var rest []*mSub
 				for _, x := range c.Subs {
 					if x != victim {
